@@ -675,7 +675,8 @@ theorem il_searchS (rng0 : Rng.ChaCha8) :
     show LoopS ilCtx c03Root _ _ (if (legalMoves c03Root).isEmpty = true then 0 else 1) 0
       { tt := ilTT, rng := rng0, events := [], nodes := 0, bestEval := Ev.negInf, bestMv := Option.none, polls := 0 } st1
     rw [hlim, ← hst0]
-    exact LoopS.step 0 0 st0 st1 st1 (by rw [hst0]) hstep (LoopS.done _ _)
+    -- iteration 0: the flag is not read at the boundary (`boundaryPoll _ 0 st = st`)
+    exact LoopS.step 0 0 st0 st1 st1 st0.polls (by rw [hst0]) (by rw [hst0]; rfl) hstep (LoopS.done _ _)
   · dsimp only
     split
     · exact List.mem_append_left _ hev
